@@ -43,6 +43,10 @@ def st_geometry(draw, max_atoms):
         syms = [draw(st.sampled_from(pool)) for _ in range(natm)]
     else:
         syms = [draw(st.sampled_from(ELEMENTS)) for _ in range(natm)]
+    if draw(st.sampled_from(range(4))) == 0:
+        # labelled atoms ('H1', 'H2', 'O1': PySCF's way of giving atoms of one element different bases or grids);
+        # atom_grid dictionaries are keyed by the labelled symbol
+        syms = [sy + draw(st.sampled_from(["", "1", "2"])) for sy in syms]
     # vertices of a tetrahedron of edge s (Angstrom) + bounded jitter, then a drawn rigid motion, so that
     # atoms never coincide (min distance >= 0.45 s) and no axis is special
     base = np.array([[0, 0, 0], [1, 0, 0], [0.5, 3 ** 0.5 / 2, 0], [0.5, 3 ** 0.5 / 6, (2.0 / 3) ** 0.5]])
@@ -89,6 +93,10 @@ def st_grid_case(draw, max_atoms=4, lmax_lo=1, dens=None, max_level=3):
         "atom_grid": draw(st_atom_grid(syms)),
         "prune": draw(st.sampled_from(PRUNES)),
         "radi": draw(st.sampled_from(RADI)),
+        # the remaining partition settings of pyscf.dft.gen_grid.Grids (defaults half of the time)
+        "becke_scheme": draw(st.sampled_from(["original_becke", "original_becke", "stratmann"])),
+        "radii_adjust": draw(st.sampled_from(["treutler_atomic_radii_adjust", "treutler_atomic_radii_adjust", "becke_atomic_radii_adjust", None])),
+        "atomic_radii": draw(st.sampled_from(["BRAGG_RADII", "BRAGG_RADII", "COVALENT_RADII"])),
         # lmax above the degree small shells support (the tables are zero there) and, from 17 on, above what only the
         # 434+ point shells support
         "lmax": draw(st.one_of(st.just(10), st.integers(lmax_lo, 14), st.integers(lmax_lo, 14), st.integers(15, 22))),
@@ -144,6 +152,10 @@ def configure(g, case, level=None, prune="_same", with_default=True):
     p = case["prune"] if prune == "_same" else prune
     g.prune = getattr(gen_grid, p) if p is not None else None
     g.radi_method = getattr(radi, case["radi"])
+    g.becke_scheme = getattr(gen_grid, case.get("becke_scheme", "original_becke"))
+    ra = case.get("radii_adjust", "treutler_atomic_radii_adjust")
+    g.radii_adjust = getattr(radi, ra) if ra is not None else None
+    g.atomic_radii = getattr(radi, case.get("atomic_radii", "BRAGG_RADII"))
     g.atom_grid = atom_grid_arg(case["atom_grid"], with_default)
     g.alignment = case["alignment"]
     return g
@@ -549,7 +561,7 @@ def run_grid_case(case, ctx, sub):
 RULE = ("molecules of 1-4 atoms from H..Ar (element pool with repeats), tetrahedral template x drawn scale, jitter and "
         "rigid motion; level 0-3 or atom_grid as tuple / list / dict over a subset of the elements (n_rad 1-60, n_ang "
         "any Lebedev size 6..590; half of the dicts carry PySCF's 'default' entry); prune in {nwchem, sg1, treutler, None}; "
-        "5 radial schemes; plain CiderGrids(mol, lmax).build() with lmax 1-22 (10 a quarter of the time, 15-22 a quarter: above 16 only the 434+ point shells support every degree); alignment in {0,1,2,3,7,8,16,32,64,100}; sort_grids T/F. "
+        "5 radial schemes; becke_scheme original/stratmann, radii_adjust treutler/becke/None, BRAGG/COVALENT radii (defaults half of the time); atoms optionally labelled (H1, H2) with label-keyed atom_grid; plain CiderGrids(mol, lmax).build() with lmax 1-22 (10 a quarter of the time, 15-22 a quarter: above 16 only the 434+ point shells support every degree); alignment in {0,1,2,3,7,8,16,32,64,100}; sort_grids T/F. "
         "Oracles: bit-for-bit multiset equality of non-zero-weight (x,y,z,w) and of the whole arrays with "
         "pyscf.dft.gen_grid.Grids of the same settings; idx_map injective into range(all_weights.size), "
         "all_weights[idx_map] == weights[:n] and atom-ordered coordinates rebuilt from rad_arr x PySCF Lebedev "
